@@ -717,7 +717,7 @@ def compare_results(pb, R, P, nsteps, eeps, seps, cband, errs=None, tag=""):
 
 
 # ------------------------------------------------------------------ known finding: end of period missed
-# GenericSolver::execute (GenericSolver.cxx:239,276) ends a period when |te - t| < 100 eps (te - ti): the slack is
+# GenericSolver::execute (GenericSolver.cxx:258,295) ends a period when |te - t| < 100 eps (te - ti): the slack is
 # relative to the length of the period although the rounding error of the accumulated time `t += dt` is relative to
 # |t|.  After a rejected step (dt halved, then 2^k additions) t can sit a few ulp(t) before te; when
 # te - ti <~ 0.03 |te| that is more than the slack, the loop performs one more sub-step of length dt beyond te and
